@@ -199,9 +199,21 @@ func shapeClass(s string) string {
 	return s
 }
 
-var touchVals = []keyid.TouchPolicy{-1, 0, 1, 2, 3, 4, 99, math.MaxInt64, math.MinInt64, 1<<53 + 1}
-var usageVals = []keyid.Usage{0, 1, 7, -1, 1<<53 + 1, math.MaxInt64}
-var verVals = []uint16{0, 1, 2, 65535, 256, 257, 513, 32769, 65281}
+// (plain integers, converted where used: the harness compiles whatever width the codec gives these attributes)
+var touchVals = []int64{-1, 0, 1, 2, 3, 4, 99, math.MaxInt64, math.MinInt64, 1<<53 + 1}
+var usageVals = []int64{0, 1, 7, -1, 1<<53 + 1, math.MaxInt64}
+var verVals = []int64{0, 1, 2, 65535, 256, 257, 513, 32769, 65281}
+
+// setInt stores v in an integer field of whatever kind and width it has.
+func setInt(field any, v int64) {
+	rv := reflect.ValueOf(field).Elem()
+	switch rv.Kind() {
+	case reflect.Int, reflect.Int8, reflect.Int16, reflect.Int32, reflect.Int64:
+		rv.SetInt(v)
+	case reflect.Uint, reflect.Uint8, reflect.Uint16, reflect.Uint32, reflect.Uint64:
+		rv.SetUint(uint64(v))
+	}
+}
 
 // cube enumerates the complete attribute cube: 2^4 flags x 7 touch x 3 usage x 4 versions = 1344.
 func cube(f func(i int, k keyid.KeyID)) int {
@@ -210,7 +222,11 @@ func cube(f func(i int, k keyid.KeyID)) int {
 		for _, tp := range touchVals {
 			for _, us := range usageVals {
 				for _, v := range verVals {
-					f(i, keyid.KeyID{IsFirefighter: fl&1 != 0, IsHWKey: fl&2 != 0, IsHeadless: fl&4 != 0, IsNonce: fl&8 != 0, TouchPolicy: tp, Usage: us, Version: v})
+					k := keyid.KeyID{IsFirefighter: fl&1 != 0, IsHWKey: fl&2 != 0, IsHeadless: fl&4 != 0, IsNonce: fl&8 != 0}
+					setInt(&k.TouchPolicy, tp)
+					setInt(&k.Usage, us)
+					setInt(&k.Version, v)
+					f(i, k)
 					i++
 				}
 			}
